@@ -590,6 +590,14 @@ orc_program_add_constant_str (OrcProgram *program, int size,
     }
   }
 
+  if (size < 8) {
+    /* a constant narrower than 8 bytes is an int everywhere else - in
+     * orc_program_add_constant() and in the bytecode: 0x80000000 is INT_MIN
+     * here too, or a 64-bit opcode sees another value in the program built
+     * from text than in the same program built through the API */
+    program->vars[i].value.i = (orc_int32) program->vars[i].value.i;
+  }
+
   /* literals written in the code (the parser names them "_<size>.<text>")
    * share a slot with an equal constant; a constant declared under a name of
    * its own - "_uno" as much as "uno" - keeps that name, or the instructions
